@@ -28,7 +28,9 @@
 //!   enable|disable <d> <ifkind>     ifkind = all | v4 | v6 | name <hex> | addr <ip> | lo4 | lo6 | idx4 <n> | idx6 <n>
 //!
 //! Observation: items joined by ` ; `:
-//!   ret <i> ok|msg|again|shutdown|parseip           result of the API call that is command number i
+//!   ret <i> ok|msg|again|shutdown|parseip|panic     result of the API call that is command number i
+//!                                                   (`panic`: the calling thread panicked inside the call;
+//!                                                    `new-msg`: ServiceInfo::new refused the arguments)
 //!   it <d> <now> <wake|none>                        an iteration of d ran at <now>; wake-up requested afterwards
 //!   rx <d> <if> <v4> <ip:port> <hex>                datagram queued for d (injected, or delivered over a link);
 //!                                                   it is read in d's next iteration
@@ -433,7 +435,14 @@ fn run_script(cmds: &[String], dense: u64) -> Option<String> {
         let cmd = t.tok()?;
         macro_rules! ret {
             ($d:expr, $r:expr) => {{
-                let r = $r;
+                let r = match std::panic::catch_unwind(std::panic::AssertUnwindSafe(|| $r)) {
+                    Ok(r) => r,
+                    Err(_) => {
+                        // the caller's thread panicked inside the API call
+                        w.out.push(format!("ret {} panic", ci));
+                        continue;
+                    }
+                };
                 w.out.push(format!("ret {} {}", ci, err_tok(&r)));
                 // the command wakes the daemon (signal socket): it runs at the current time
                 if r.is_ok() && $d < w.pending_rx.len() {
@@ -552,7 +561,15 @@ fn run_script(cmds: &[String], dense: u64) -> Option<String> {
                 }
                 let probe = t.boolean()?;
                 let auto = t.boolean()?;
-                let info = ServiceInfo::new(&ty, &inst, &host, &ips[..], port, props);
+                let info = match std::panic::catch_unwind(std::panic::AssertUnwindSafe(|| {
+                    ServiceInfo::new(&ty, &inst, &host, &ips[..], port, props)
+                })) {
+                    Ok(i) => i,
+                    Err(_) => {
+                        w.out.push(format!("ret {} panic", ci));
+                        continue;
+                    }
+                };
                 match info {
                     Err(e) => w.out.push(format!("ret {} new-{}", ci, err_tok::<()>(&Err(e)))),
                     Ok(mut info) => {
